@@ -56,6 +56,8 @@ type FnCtx struct {
 	entryVals  map[*ssa.Parameter]Val
 	entryTerms []entryTerm
 	quantHeavy     bool
+	litText        map[string]string
+	catParts       map[string][]strAtom
 	entryHeld      string
 	sorts          map[string]string
 	constArrs      map[string]string
@@ -95,6 +97,7 @@ func (c *FnCtx) lit(s string) string {
 	}
 	n := fmt.Sprintf("lit!%d", len(c.lits))
 	c.lits[s] = n
+	c.litText[n] = s
 	c.litOrder = append(c.litOrder, s)
 	c.declare(n, fmt.Sprintf("(declare-const %s Str) ; %q", n, s))
 	return n
@@ -138,6 +141,7 @@ type State struct {
 	frames  []frame
 	havocs  []havocRec
 	lastBound string
+	boxed     map[string]Val // interface term name -> the struct value that was boxed into it
 	noTypeInv bool
 	inGlobalInv bool
 	selfFn    Val
